@@ -11,7 +11,8 @@ def sig(o, s):
     return {"kind": "crash" if str(o.get("err", "")).startswith("CRASHED") else ("error" if o.get("result") != "ok" else "mismatch"),
             "c": opts.get("c"), "I": opts.get("I"),
             "wrongly_requested": sorted(set(got) - set(want)), "wrongly_skipped": sorted(set(want) - set(got)),
-            "diff": sorted({d[1] for d in p_recv.diff_paths(o, s) if d[1] in ("content", "type", "missing", "unexpected")})}
+            "diff": sorted({d[1] for d in p_recv.diff_paths(o, s) if d[1] in ("content", "type", "missing", "unexpected", "mtime")}),
+            "repeat_requests": bool(o.get("reqs2")) and bool(opts.get("t")) and not opts.get("I")}
 
 
 def check(w):
@@ -19,7 +20,7 @@ def check(w):
     r, cov, scen = p_recv.design_and_generate(w, "c12")
     counts = {"traces": 0, "trace_states": 0}
     chunks = (0, 1, 7) if w.tier == "thorough" else (0,)
-    obs, rej = p_recv.run_validate_confirm(w, "c12", scen, "c12", v, counts, sig, chunks=chunks, judge=("reqs", "type", "content"))
+    obs, rej = p_recv.run_validate_confirm(w, "c12", scen, "c12", v, counts, sig, chunks=chunks, judge=("reqs", "type", "content", "mtime", "repeat"))
     nneg = p_recv.negative_controls(w, "c12", obs, rej, w.seed)
     nontriv = len({(json_key(o)) for o in obs if o["reqs"]})
     v.coverage = {
@@ -30,8 +31,9 @@ def check(w):
                      "requests": o["reqs"], "result": o["result"]} for o in obs[:3]],
         "decision_table_rows": len(scen), "receivers": ["client", "daemon"],
         "evaluations": len(obs), "distinct_nontrivial": nontriv,
+        "repeat_sessions": sum(1 for o in obs if o.get("result2")),
         "rule": "one row of the decision table {f missing / dir, symlink, fifo in the way / regular with size, mtime(+-1 s, sub-second, far), content} x {-c, -I, -t}, "
-                "embedded in a tree with an up-to-date and a missing sibling; non-trivial = the receiver requested at least one file",
+                "embedded in a tree with an up-to-date and a missing sibling, each followed by the same session again (with -t it must request nothing); non-trivial = the receiver requested at least one file",
         "action_coverage": cov, "negative_controls": nneg, "worker_crashes": counts.get("crashed", 0),
     }
     v.assumptions = ["content ids stand for byte contents (distinct ids = distinct pseudo-random contents, equal sizes where the row says so)",
